@@ -570,7 +570,8 @@ class SimNet:
         self.conns: List[TcpConn] = []
         self.udp_ports: Dict[int, List[FakeSocket]] = {}
         self.connect_delay = 0.001
-        self.arrivals: Dict[int, List[tuple]] = {}   # port -> [(tag, payload, delivered_to_fd|None)]
+        self.arrivals: Dict[int, List[dict]] = {}    # port -> arrival records, in arrival order
+        self.arrival_order: List[dict] = []
         self.rxq_limit = 64
         self.taken: List[tuple] = []
 
@@ -643,8 +644,11 @@ class SimNet:
                 sim.fire("rxq_overflow")
                 sim.rec("udp", "overflow", port, tag)
                 target = None
-            self.arrivals.setdefault(port, []).append(
-                (tag, payload, target.fd if target else None, target.owner if target else None))
+            rec = {"tag": tag, "payload": payload, "port": port, "fd": target.fd if target else None,
+                   "owner": target.owner if target else None, "mono_us": sim.mono_us, "seq": sim.seq,
+                   "order": len(self.arrival_order)}
+            self.arrivals.setdefault(port, []).append(rec)
+            self.arrival_order.append(rec)
             sim.rec("udp", "arrive", port, tag, target.fd if target else None)
             if target is not None:
                 target.rxq.append((payload, src, tag))
@@ -716,6 +720,7 @@ class SimContext:
             "message": str(context.get("message")),
             "exception": type(exc).__name__ if exc is not None else None,
             "text": str(exc)[:200] if exc is not None else None,
+            "seq": self.sim.seq, "arrived": len(self.sim.net.arrival_order), "taken": len(self.sim.net.taken),
         })
         self.sim.rec("loop-exception", type(exc).__name__ if exc is not None else None,
                      str(context.get("message"))[:80])
